@@ -6,9 +6,9 @@ CONSTANTS
   USER_NESTS = FALSE
   USER_REMOVES_ENTRIES = FALSE
   USER_RENAMES = TRUE
-  RECHECK_ON_RENAME = FALSE
-  ENTRIES_ARE_DIRS = FALSE
-  RECHECK_DIRS = TRUE
+  RECHECK_ON_RENAME = TRUE
+  ENTRIES_ARE_DIRS = TRUE
+  RECHECK_DIRS = FALSE
   FIX_BYUSER = TRUE
 INVARIANTS FdsMatch ListOK AllGone Released CreateOnce Covered
 CHECK_DEADLOCK FALSE
